@@ -79,6 +79,9 @@ func templateSpec(f fileDesc) *specs.Spec {
 			e.Mounts = []*specs.Mount{{HostPath: "/h/" + f.Tag, ContainerPath: "/c/" + d}}
 			e.AdditionalGIDs = []uint32{uint32(len(f.Tag) + 1)}
 		}
+		if f.Variant&8 != 0 && i == 0 {
+			e.Hooks = []*specs.Hook{{HookName: "createRuntime", Path: "/bin/dev-" + f.Tag + d, Args: []string{"dev", d}}}
+		}
 		if f.Variant&2 != 0 && i == 0 {
 			e.IntelRdt = &specs.IntelRdt{ClosID: "dev-" + f.Tag + d, MemBwSchema: "MB:0=10", EnableCMT: true}
 		}
@@ -98,6 +101,42 @@ func templateSpec(f fileDesc) *specs.Spec {
 		}
 	}
 	return s
+}
+
+// genCleanLayout: valid files only, no two files of one directory with the same kind (no conflicts);
+// files of the same name in different directories share their kind (shadowing across directories).
+// Used where an error anywhere makes the tool stop (cli stream), so that the success paths are reached.
+func genCleanLayout(rng *rand.Rand) layoutDesc {
+	l := layoutDesc{Phys: map[string][]fileDesc{}}
+	names := []string{"a.json", "b.yaml", "c.json", "d.yaml"}
+	kinds := [][2]string{{"v1.com", "c1"}, {"v1.com", "c2"}, {"v2.com", "c1"}, {"v2.com", "c2"}}
+	tag := 0
+	for _, p := range []string{"A", "B", "C"} {
+		var files []fileDesc
+		for i, name := range names {
+			if rng.Intn(2) == 0 {
+				continue
+			}
+			tag++
+			f := fileDesc{Name: name, Kind: "valid", Tag: fmt.Sprintf("%s%d", p, tag), Vendor: kinds[i][0], Class: kinds[i][1],
+				Rich: rng.Intn(2) == 0, Variant: rng.Intn(16)}
+			for _, d := range poolDevs {
+				if rng.Intn(2) == 0 {
+					f.Devs = append(f.Devs, d)
+				}
+			}
+			if len(f.Devs) == 0 {
+				f.Devs = []string{"d0"}
+			}
+			files = append(files, f)
+		}
+		l.Phys[p] = files
+	}
+	perm := rng.Perm(3)
+	for i := 0; i <= rng.Intn(3); i++ {
+		l.Dirs = append(l.Dirs, "p:"+[]string{"A", "B", "C"}[perm[i]])
+	}
+	return l
 }
 
 func genLayout(rng *rand.Rand) layoutDesc {
@@ -203,6 +242,10 @@ func (cacheStream) Generate(rng *rand.Rand, tier string, emit func(Case)) {
 		var lm map[string]any
 		_ = json.Unmarshal(lj, &lm)
 		emit(Case{"op": "refresh", "layout": lm, "auto": false})
+		if i%5 == 0 {
+			// the same through an auto-refresh cache (explicit Refresh on an up-to-date cache reports the cached errors)
+			emit(Case{"op": "refresh", "layout": lm, "auto": true, "nospawn": true})
+		}
 		// two injections on the same layout
 		for k := 0; k < 2; k++ {
 			var req []string
@@ -356,7 +399,11 @@ func (cacheStream) Execute(c Case) {
 			}
 		}
 	}()
-	cache, _ := cdi.NewCache(cdi.WithSpecDirs(dirs...), cdi.WithAutoRefresh(false))
+	auto, _ := c["auto"].(bool)
+	cache, _ := cdi.NewCache(cdi.WithSpecDirs(dirs...), cdi.WithAutoRefresh(auto))
+	if auto {
+		defer func() { _ = cache.Configure(cdi.WithAutoRefresh(false)) }()
+	}
 	rerr := cache.Refresh()
 	switch c["op"] {
 	case "refresh":
@@ -365,7 +412,11 @@ func (cacheStream) Execute(c Case) {
 		obs["vendors"] = hxList(cache.ListVendors())
 		obs["classes"] = hxList(cache.ListClasses())
 		var keys []string
+		monitoring := cache.GetSpecDirErrors() // directory-monitoring errors of auto-refresh mode are not file errors
 		for k := range cache.GetErrors() {
+			if _, ok := monitoring[k]; ok && auto {
+				continue
+			}
 			keys = append(keys, k)
 		}
 		sort.Strings(keys)
